@@ -60,6 +60,10 @@ def run(ctx, progs):
             # decided semantically by NONE1/ACC1/MOD1, so that an equivalent re-spelling of a guard
             # in one twin is not reported
             shapes.twin(ctx, "TWIN", prog, a, b, cfg, guards=False)
+        # range()/range_mut() are views too: the shared and the mutable range view select the same elements iff
+        # Iter and IterMut trim their two slices by the same algorithm (selection arithmetic itself: not decided)
+        for a, b in c08.PAIRS:
+            shapes.twin(ctx, "TWIN", prog, a, b, cfg, what="the shared and the mutable form of one view")
 
 
 def deriv1(ctx, prog, cfg):
